@@ -9,11 +9,14 @@ last state change − start, and the last change never lies in the future) and f
 (`machine_time_partition`: both documented state groups and the worker-occupancy histogram partition
 the time since the end of the set-up period, the set-up period is charged to SETUP_STATE).  Not proved:
 that the state charged is the state the workers are actually in ("reflects actual activity" — decided by
-the truthful-accounting judge on recorded runs), Combiner / Splitter, and the float-rounding half.
+the truthful-accounting judge on recorded runs) and the float-rounding half.  Combiner / Splitter:
+`pack_time_partition` (the four state totals add up to the time from construction to the last change).
 -/
 import FsVerif.Proofs.MachineStat
 import FsVerif.Proofs.NodeClock
 import FsVerif.Proofs.MachineStatRun
+import FsVerif.Proofs.PackClock
+import FsVerif.Proofs.PackB
 import FsVerif.Props.C09
 namespace FsVerif.Props.C17
 open FsVerif MacState
@@ -103,5 +106,32 @@ theorem machine_time_partition (cfg : MacCfg) (acts : List MacState.Act) :
 /-- non-vacuity on the RECORDED blocking-machine run of Props/C09: last change at 10, set-up ended at 0, both groups add up to 10 -/
 example : let s := MacState.runActs (MacState.init { wc := 1, blocking := true }) C09.demoBlocking
     (s.last, s.tEnd, sumA s.tt, sumB s.tt) = (some 10, some 0, 10, 10) := by decide +kernel
+
+/-! ### Combiner and Splitter: the partition over all activation sequences -/
+
+theorem pack_run_pk (acts : List PackState.Act) : ∀ (s : PackState), PackState.PK s s.now → PackState.PK (PackState.run s acts) (PackState.run s acts).now := by
+  induction acts with
+  | nil => intro s h; exact h
+  | cons x xs ih => intro s h; exact ih _ (PackState.PK.step x.1 x.2.1 x.2.2 h)
+
+/-- SETUP + IDLE + PROCESSING + BLOCKED = time from construction to the last recorded state change, which is not in the future -/
+theorem pack_time_partition (cfg : PackCfg) (acts : List PackState.Act) :
+    let s := PackState.run (PackState.init cfg) acts
+    s.clock.tot.length = 4 ∧ ∃ l, s.clock.last = some l ∧ l ≤ s.now ∧ s.clock.tot.sum = l := by
+  have h := pack_run_pk acts _ (PackState.init_pk cfg)
+  obtain ⟨⟨_, hl⟩, hlen, hn, _⟩ := h
+  refine ⟨hlen, ?_⟩
+  cases hlast : (PackState.run (PackState.init cfg) acts).clock.last with
+  | none => exact absurd hlast hn
+  | some l =>
+    rw [hlast] at hl
+    obtain ⟨h1, t0, h2, _, h4⟩ := hl
+    have : t0 = 0 := by cases h2; rfl
+    subst this
+    exact ⟨l, rfl, h1, by simpa using h4⟩
+
+/-- non-vacuity on the combiner run of Props/C16.demoComb -/
+example : ((PackState.run (PackState.init { kind := .combiner, nin := 2, nout := 1, target := [1, 2] }) C16.demoComb).clock.last,
+           (PackState.run (PackState.init { kind := .combiner, nin := 2, nout := 1, target := [1, 2] }) C16.demoComb).clock.tot.sum) = (some 8, 8) := by decide +kernel
 
 end FsVerif.Props.C17
